@@ -34,7 +34,7 @@ CASE_TIMEOUT = 240
 SHARD_TIMEOUT = {"quick": 900, "thorough": 7200}
 REQUIRED = {"quick": {"external_runs": 25, "trace_pairs_compared": 8, "kill_runs": 8, "evaluator_exception_runs": 4, "process_table_checked": 25, "messages_counted": 100, "__nontrivial__": 20},
             "thorough": {"external_runs": 300, "trace_pairs_compared": 80, "kill_runs": 120, "evaluator_exception_runs": 50, "process_table_checked": 300, "messages_counted": 2000, "__nontrivial__": 250}}
-N = {"quick": {"diff": 12, "kill": 3, "exc": 2}, "thorough": {"diff": 200, "kill": 30, "exc": 20}}
+N = {"quick": {"diff": 18, "kill": 3, "exc": 2}, "thorough": {"diff": 200, "kill": 30, "exc": 20}}
 MAX_ROUNDS_AFTER_DEATH = 6
 
 
@@ -79,6 +79,11 @@ def gen_spec(rng, i):
             spec["optimizer"]["max_functions"] = int(rng.integers(2, 5))
     if rng.random() < 0.3:
         spec["nan"] = [{"call": int(rng.integers(0, 4)), "r": int(rng.integers(R)), "p": -1, "col": 0}]
+    if method == "differential_evolution" and rng.random() < 0.7:
+        # an evaluation in which every realization fails: tolerated (NaN -> inf) by a NaN-tolerant method when realization_min_success is 0
+        spec["rmin"] = 0
+        k = int(rng.integers(1, 4))
+        spec["nan"] = [{"call": k, "r": r, "p": -1, "col": 0} for r in range(R)]
     return spec
 
 
